@@ -108,6 +108,10 @@ def canaries(esc_abs):
         "fmt_ext": "X{ext.__class__}Y",
         "trav_rel": "../../../ESCAPED_rel",
         "trav_rel_deep": "x/../../../../ESCAPED_deep",
+        # exactly as many ".." as it takes to leave the document's own directory from one level down, and a
+        # path that leaves on the way although its components balance out
+        "trav_rel2": "../../ESCAPED_two.glif",
+        "trav_balanced": "../../ESCAPED_bal/x/y.glif",
         "trav_abs": esc_abs + "_abs",
         "trav_nul": "..\\..\\..\\ESCAPED_bs",
         "module": DECOY,
